@@ -45,7 +45,7 @@ WORD_NAMES = ['else', 'elif', 'except', 'finally', 'in', 'if', 'var', 'end',
               'try',
               # ... like attributes of the var tag, and in mixed case
               'size', 'url', 'upper', 'lower', 'null', 'fmt', 'etc',
-              'missing', 'html_quote', 'mapping', 'Title', 'URL', 'vA']
+              'missing', 'html_quote', 'Title', 'URL', 'vA']
 CFG = gen.Config(kinds=['text', 'var', 'var', 'ent', 'call', 'if', 'if',
                         'unless', 'in', 'in', 'with', 'let', 'try', 'comment',
                         'boom', 'sub', 'raise', 'return'],
